@@ -335,6 +335,10 @@ TConst(e) ==
 
 ---------------------------------------------------------------------------
 NoSpline == [ok |-> FALSE]
+\* which of the property's (t0, dt) classes a spline belongs to (coverage only)
+T0Class(t0) == IF RSign(t0) = 0 THEN "t0=0" ELSE IF RSign(t0) < 0 THEN "t0<0" ELSE IF RLeq(RI(100), t0) THEN "t0>=100" ELSE "t0>0"
+DtClass(dt) == IF RLt(dt, RFrac(1, 5)) THEN "dt<.2" ELSE IF RLt(dt, RFrac(1, 2)) THEN "dt<.5" ELSE IF RLt(dt, R2) THEN "dt<2" ELSE "dt>=2"
+NClass(k, n) == IF n = k + 1 THEN "N=K+1" ELSE IF n = 30 THEN "N=30" ELSE "N.."
 Init == l = 1 /\ bad = <<>> /\ cov = <<>> /\ sp = [A |-> NoSpline, B |-> NoSpline]
 
 \* result of one line: failures, coverage key, next spline table
@@ -349,7 +353,9 @@ Step(e) ==
                                    ELSE IF e.kind = "local" THEN SameExceptOne(sp["A"], s)
                                    ELSE IF e.kind = "equiv" THEN IsLeftMultiple(sp["A"], s)
                                    ELSE FALSE
-                      IN [bad |-> SplineChecks(e, s), key |-> "spline|K" \o ToString(e.K) \o "|" \o e.kind,
+                      IN [bad |-> SplineChecks(e, s),
+                          key |-> "spline|K" \o ToString(e.K) \o "|" \o e.kind
+                                  \o (IF e.kind = "gen" THEN "," \o T0Class(s.t0) \o "," \o DtClass(s.dt) \o "," \o NClass(s.K, s.N) ELSE ""),
                           sp |-> IF e.slot = "A" THEN [A |-> s @@ [relok |-> FALSE], B |-> NoSpline]
                                  ELSE [sp EXCEPT !["B"] = s @@ [relok |-> relok]]]
     [] e.op = "eval" -> TEval(e) @@ [sp |-> sp]
